@@ -143,6 +143,71 @@ func Gen(r *hx.Rng, tier string, w io.Writer) {
 	fmt.Fprintln(w, "reap")
 	fmt.Fprintln(w, "restart")
 	x.drain(4)
+	// the sequencing layer's clock: a batch stamped with the SAME time as the previous block is committed like any other
+	// (twice in a row, after a restart, with an empty queue); one stamped EARLIER is dropped after it was taken (recorded finding)
+	x.reset(0)
+	x.arrive(2)
+	fmt.Fprintln(w, "reap")
+	fmt.Fprintln(w, "produce clock=same")
+	x.arrive(1)
+	fmt.Fprintln(w, "reap")
+	fmt.Fprintln(w, "produce clock=same")
+	fmt.Fprintln(w, "produce clock=same") // empty queue: an empty block with the same timestamp
+	fmt.Fprintln(w, "restart")
+	x.arrive(2)
+	fmt.Fprintln(w, "reap")
+	fmt.Fprintln(w, "produce clock=same")
+	x.drain(3)
+	x.reset(0)
+	x.arrive(2)
+	fmt.Fprintln(w, "reap")
+	fmt.Fprintln(w, "produce clock=back")
+	fmt.Fprintln(w, "reap")
+	x.drain(3)
+	// transient datastore errors (outside the property's quantifier; the behaviour of the real code is pinned down by the
+	// model): the queue's write-ahead Put fails -> the hand-off is refused, nothing changes, the retry hands over ONCE
+	for _, qmax := range []int{0, 1} {
+		x.reset(qmax)
+		x.arrive(2)
+		fmt.Fprintln(w, "fail what=qput")
+		fmt.Fprintln(w, "reap")
+		fmt.Fprintln(w, "reap")
+		x.arrive(1)
+		fmt.Fprintln(w, "fail what=qput")
+		fmt.Fprintln(w, "reap")
+		fmt.Fprintln(w, "produce")
+		fmt.Fprintln(w, "reap")
+		x.drain(4)
+	}
+	// the mark of the first transaction fails (logged, ignored): handed over again; the queue's Delete fails (logged,
+	// ignored): after a restart the batch is handed out again; the early block save fails: the step's error ends the node
+	x.reset(0)
+	x.arrive(2)
+	fmt.Fprintln(w, "fail what=seen")
+	fmt.Fprintln(w, "reap")
+	fmt.Fprintln(w, "reap")
+	x.drain(4)
+	x.reset(0)
+	x.arrive(2)
+	fmt.Fprintln(w, "reap")
+	fmt.Fprintln(w, "fail what=qdel")
+	fmt.Fprintln(w, "produce")
+	fmt.Fprintln(w, "restart")
+	x.drain(4)
+	for _, first := range []string{"produce", "produce exec=fail"} {
+		x.reset(0)
+		x.arrive(2)
+		fmt.Fprintln(w, "reap")
+		if first != "produce" {
+			fmt.Fprintln(w, first) // the block waits at height+1: the failing save is the final one
+		}
+		fmt.Fprintln(w, "fail what=blk")
+		fmt.Fprintln(w, "produce")
+		fmt.Fprintln(w, "reap") // needs-restart
+		fmt.Fprintln(w, "restart")
+		fmt.Fprintln(w, "reap")
+		x.drain(4)
+	}
 	n := 60
 	if tier == "thorough" {
 		n = 800
@@ -164,10 +229,15 @@ func Gen(r *hx.Rng, tier string, w io.Writer) {
 			case 0, 1:
 				x.arrive(1 + r.Intn(3))
 			case 2, 3:
+				if r.Chance(8) {
+					fmt.Fprintln(w, "fail what=qput") // a failing queue write is a refusal: harmless everywhere
+				}
 				fmt.Fprintln(w, "reap")
 			case 4, 5:
 				if execFails && r.Chance(30) {
 					fmt.Fprintln(w, "produce exec=fail")
+				} else if r.Chance(10) {
+					fmt.Fprintln(w, "produce clock=same")
 				} else {
 					fmt.Fprintln(w, "produce")
 				}
